@@ -107,7 +107,7 @@ let last : (Sx.t * ((RZ.range, z) outcome * (RZ.range, z) state * (((n * RZ.rang
 let model_of (cs : Sx.t) (c : case) =
   match !last with
   | Some (k, r) when k == cs -> r
-  | _ -> let ((o, st), log) = run_model c in let r = (o, st, log) in last := Some (cs, r); r
+  | _ -> let (((o, st), log), _consumed) = run_model c in let r = (o, st, log) in last := Some (cs, r); r
 
 let store_sx (st : (RZ.range, z) state) : str =
   let entry (i : (RZ.range, z) incompat) =
